@@ -40,10 +40,17 @@ Definition spec_step (m : amap) (serving closed : bool) (op : sop) (out : sout)
       (forall c, In c l <-> exists a, m a = Some c) /\ (forall x, m' x = m x)
       /\ serving' = serving /\ closed' = closed
   | OServe, SServe started =>
+      (serving = false \/ closed = true) /\
       (forall x, m' x = m x) /\ started = negb closed /\ serving' = (serving || negb closed)
       /\ closed' = closed
+  | OServe, SServeBusy =>
+      (* a server that is serving refuses a second Serve and is not disturbed by it *)
+      serving = true /\ closed = false /\ (forall x, m' x = m x) /\ serving' = serving /\ closed' = closed
   | OClose, SClose ret =>
       (forall x, m' x = m x) /\ ret = serving /\ serving' = false /\ closed' = true
+  | OBreak, SBreak ret =>
+      (* a failed listener ends a running Serve for good; it is not a way to restart the server *)
+      (forall x, m' x = m x) /\ ret = serving /\ serving' = false /\ closed' = (closed || serving)
   | _, _ => False
   end.
 
